@@ -10,7 +10,8 @@ oracle      independent: expected line = d1 + gen.render(style, replacement word
             under the documented option semantics, unchanged otherwise; ambiguity clause on flat / single-word occurrences.
             Exhaustive over (term pair, input styles) combos x 12 visible styles x 11 delimiter contexts x 30 option sets.
             A failing case must fall under a listed finding class by the decidable description below, else VIOLATION.
-witnesses   corpus/C06/*.json replayed on the harness (and the sentence witness on the CLI binary)
+witnesses   corpus/C06/*.json replayed on the harness (findings still real + regression cases, among them the repaired
+            Sentence-case occurrence, which is also run through the CLI binary)
 """
 import concurrent.futures
 import json
@@ -186,9 +187,8 @@ def classify(case, got):
     en = enabled(opts)
     typed_s, typed_r = case["search"], case["replace"]
     wrap = lambda x: d1 + x + d2 + "\n"
-    # (a) Sentence occurrence, multi-word, enabled: rewritten as Title
-    if st == "sentence" and st in en and len(S) >= 2 and got == wrap(gen.render("title", R)):
-        return "sentence_rendered_as_title"
+    # (a) [fixed in /repo by 70c1048 "tell Title Case and Sentence case apart"; no longer a finding class: a Sentence
+    #     occurrence rewritten as Title is a VIOLATION again]
     # (b) every default style excluded, nothing included: build_styles_list returns None and the scanner falls back to its
     #     own default list (+ the search-as-typed -> replacement-as-typed entry)
     if not en and parse_opts(opts)[0]:
